@@ -651,9 +651,13 @@ def run_C01(ctx):
     res3 = ctx.vh_isolated("c07-replay", r3.out, chunk=20000, timeout=900, sig_prefix="c01")
     ctx.absorb(_only(res3, ["c01:", "c07:panic"]), "G:c07-replay(include graphs, crash-only)")
     # type graphs (references, 'or', properties, items, allOf; cyclic or not) x every site that uses a type
-    r4 = ctx.tlc("MC_C01types", cfg="MC_C01types_quick.cfg" if ctx.quick else "MC_C01types_thorough.cfg", timeout=1800)
+    r4 = ctx.tlc("MC_C01types", cfg="MC_C01types_quick.cfg", timeout=1800)
     res4 = ctx.vh_isolated("types-build", r4.out, chunk=4000, timeout=600, sig_prefix="c01")
     ctx.absorb(res4, "G:types-build")
+    if not ctx.quick:
+        r4b = ctx.tlc("MC_C01types", cfg="MC_C01types_thorough.cfg", timeout=3000, label="MC_C01types(N=3)")
+        res4b = ctx.vh_isolated("types-build", r4b.out, chunk=4000, timeout=900, sig_prefix="c01")
+        ctx.absorb(res4b, "G:types-build(N=3)")
     # 'or' diamonds: the walk with a visited set is linear (model); the time of the real build is measured
     res5 = ctx.vh_isolated("types-chain", r4.out, chunk=1, tag="D", timeout=120, sig_prefix="c01")
     ctx.absorb(res5, "G:types-chain(or diamonds)")
